@@ -394,7 +394,7 @@ def _real_component(fn, case):
                     if classify(e, e.__traceback__) != "diag":
                         raise
                     import re
-                    m = re.search(r"(?:Required parameter |Parameter )?'(.*)' (?:cannot follow|is not a valid|is a Python keyword|is defined)", str(e), re.S)
+                    m = re.search(r"(?:Required parameter |Parameter )?'(.*)' (?:cannot follow|is not a valid|is a Python keyword|is defined|has '=')", str(e), re.S)
                     return "ok", {"diag": _diag_title(e), "name": m.group(1) if m else None}
             if fn == "validate_passage_name":
                 try:
